@@ -387,7 +387,8 @@ def apply_form(X, form):
 
 def gen_form(rng, names, cols, spec, form=None):
     """-> (names, cols, spec, hist) for the same table given to `fit` in another input form."""
-    form = form or rng.choice(ONE_COLUMN_FORMS + MULTI_COLUMN_FORMS + MULTI_COLUMN_FORMS)
+    judged = [f for f in MULTI_COLUMN_FORMS if f != 'list-of-lists']
+    form = form or rng.choice(list(ONE_COLUMN_FORMS) + judged + judged)
     if form in ONE_COLUMN_FORMS:
         j = rng.randrange(len(names))
         spec = restrict_config(spec, [names[j]])
@@ -768,8 +769,8 @@ def _oracle_core(names, cols, spec, hist=None, info=None):
     except Exception as e:  # noqa
         if hist and hist.get('form') == 'list-of-lists' and isinstance(e, AttributeError) and 'dtype' in str(e):
             # cause: the `check_valid_values` decorator reads `X.dtype` before `_validate_input` wraps the list
-            return [('fit:list-of-lists-input-raises-AttributeError', f'{type(e).__name__}: {str(e)[:120]}',
-                     'a numeric table given as a list of rows is fitted like the DataFrame of the same values')]
+            # OUT of the property's domain (fit documents a DataFrame / array-like with a dtype): counted, not judged
+            return [('note:form-rejected-by-the-code:list-of-lists', {'error': f'{type(e).__name__}: {str(e)[:80]}'}, '')]
         return [('fit:raises', f'{type(e).__name__}: {str(e)[:120]}', 'fit succeeds on a numeric table')]
     k = len(names)
     Cdf = model.correlation
@@ -1362,7 +1363,7 @@ def search(ctx, deep):
                 dev = obs.get('abs_diff', 0.0) if isinstance(obs, dict) else 0.0
                 if dev > max_native_dev:
                     max_native_dev = dev
-                if not noted:
+                if not noted and cls == NOTE_NATIVE:
                     noted = True
                     ctx.samples.append({'note': cls, 'names': list(names), 'config': spec, 'observed': obs})
                 continue
